@@ -9,22 +9,7 @@
 // the harness down); such exceptions are reported as exc:bad_alloc.
 #include "c11_big.h"
 
-#include <cstdlib>
-#include <new>
-
-static constexpr std::size_t ALLOC_LIMIT = std::size_t(64) << 20;
-void *operator new(std::size_t n)
-{
-  if (n > ALLOC_LIMIT) throw std::bad_alloc();
-  void *p(std::malloc(n ? n : 1));
-  if (!p) throw std::bad_alloc();
-  return p;
-}
-void *operator new[](std::size_t n) { return operator new(n); }
-void operator delete(void *p) noexcept { std::free(p); }
-void operator delete[](void *p) noexcept { std::free(p); }
-void operator delete(void *p, std::size_t) noexcept { std::free(p); }
-void operator delete[](void *p, std::size_t) noexcept { std::free(p); }
+#include "c11_alloc.h"
 
 using namespace c11;
 
